@@ -202,6 +202,7 @@ def r1(chk, facts):
             for _, _, cal in p.bodies[k].call_sites():
                 if cal and cal not in seen:
                     work.append(cal)
+            work.extend(k2 for k2 in p.bodies if k2.startswith(k + "::{closure") and k2 not in seen)      # closures are separate bodies
         chk.expect(target in seen, f"reaches-core:{name}",
                    f"{b.key} does not reach {target} through calls inside ic_principal: bytes could become a Principal "
                    f"without the length check", ok_detail=f"{name} -> ... -> from_slice_core")
